@@ -325,9 +325,14 @@ def run_glue(klass, tier):
                 cfgs += [(method, 1, 2)] + ([(method, 1, 4)] if method in ('complex', 'central', 'forward') else [])
             else:
                 cfgs.append((method, 2, 2))
-        for method, n, order in cfgs:
+        variants = [(c, None) for c in cfgs] + [(c, cfgs[(i + 1) % len(cfgs)]) for i, c in enumerate(cfgs)]
+        for (method, n, order), other in variants:
             CTX.reset()
             tag = '%s,n=%d,order=%d' % (method, n, order)
+            if other is not None:
+                # history variant: the object was constructed for another configuration and re-configured through
+                # its public setters before the call
+                tag = 'reconf(%s,n=%d,order=%d)->%s' % (other + (tag,))
             scalar_x = klass == 'Derivative'
             gen = StubGen(d, K=n + order + 2, scalar=False)
             if klass == 'Derivative':
@@ -353,11 +358,20 @@ def run_glue(klass, tier):
                 rec_f = RealAtReal()
             else:
                 rec_f = rec
-            kw = dict(step=gen, method=method, order=order)
+            m0, n0, o0 = other if other is not None else (method, n, order)
+            kw = dict(step=gen, method=m0, order=o0)
             if klass == 'Derivative':
-                kw['n'] = n
+                kw['n'] = n0
             try:
-                obj = K(rec_f, **kw)
+                import warnings
+                with warnings.catch_warnings():
+                    warnings.simplefilter('ignore')
+                    obj = K(rec_f, **kw)
+                    if other is not None:
+                        obj.method = method
+                        obj.order = order
+                        if klass == 'Derivative':
+                            obj.n = n
                 x = SymArr([real('x%d' % j) for j in range(d)])
                 xs = list(x)
                 args = ('A1', 7)
@@ -439,6 +453,10 @@ def replay_case(ob):
     mm = re.search(r'points\[(\w+),d=(\d+)\]/(_\w+?):', ob['name'])
     if mm:
         return dict(kind='C05.points', cls=mm.group(1), d=int(mm.group(2)), func=mm.group(3))
+    mm = re.search(r'glue\[(\w+)\]/reconf\((\w+),n=(\d+),order=(\d+)\)->(\w+),n=(\d+),order=(\d+)', ob['name'])
+    if mm:
+        return dict(kind='C05.glue', klass=mm.group(1), method=mm.group(5), n=int(mm.group(6)), order=int(mm.group(7)),
+                    other=[mm.group(2), int(mm.group(3)), int(mm.group(4))])
     mm = re.search(r'glue\[(\w+)\]/(\w+),n=(\d+),order=(\d+)', ob['name'])
     if mm:
         return dict(kind='C05.glue', klass=mm.group(1), method=mm.group(2), n=int(mm.group(3)), order=int(mm.group(4)))
